@@ -13,7 +13,7 @@ import valgen
 import xv
 from xv import log
 
-CORPUS_VERSION = "24"
+CORPUS_VERSION = "25"
 
 BOUNDARY = [0, 1, 2, 3, 0xffff, 0x10000, 0x7fffffff, 0x80000000, 0xfffffffe, 0xffffffff]
 
@@ -169,6 +169,12 @@ def quick_specs(seed, tier):
         # "the" link must walk all of them
         "struct tnode { int v; tnode *left; tnode *right; };\nstruct forest { tnode trees<>; unsigned int trailer; };\n"
         "struct dl { dl *prev; opaque tag<4>; dl *next; unsigned hyper id; };\n",
+        # a union over an enum, no default, with cases for only SOME members: a member without a
+        # case is a valid enum word and an unknown discriminant of the union
+        "enum lock_kind { LK_NONE = 0, LK_READ = 1, LK_WRITE = 2, LK_UPGRADE = 7 };\n"
+        "union lock_arg switch (lock_kind kind) { case LK_READ: unsigned int shared; case LK_WRITE: hyper excl; };\n"
+        "union lock_void switch (lock_kind kind) { case LK_UPGRADE: void; case LK_NONE: void; };\n"
+        "struct lock_batch { lock_arg locks<8>; lock_void v[2]; };\n",
     ]
     out += [("fixed", s) for s in fixed]
     out += [("elem", s) for s in ELEM_SPECS]
